@@ -283,8 +283,16 @@ static void vf_mock_init(MockTaskSet& ts) {
   }
   g_ts = &ts;
   auto& pti = dispenso::detail::g_vf_pti;
+#if defined(VF_CTX) && VF_CTX
+  // the caller is a worker thread of the same pool with a symbolic ring index (a task that issues a
+  // parallel_for): parallel_for_staticImpl then picks the caller's chunk by ring index
+  pti.pool = static_cast<void*>(&ts.pool());
+  pti.ringIndex = static_cast<int32_t>(vf_nondet_u8() & 3) - 1;
+  vf_assume(pti.ringIndex < static_cast<int32_t>(VF_N));
+#else
   pti.pool = nullptr;
   pti.ringIndex = -1;
+#endif
   pti.parForRecursionLevel = 0;
   vf_set_l3_groups(VF_L3 ? vf_range_u32(0, VF_L3) : 0);
 }
